@@ -81,6 +81,27 @@ CLAIMS = {
         note='MT19937 get/set_state exactness and stream quality are trusted; the decorator table is introspected by the '
              'harness; the former Univariate wrapper defect is kept as a counter-example theorem about the as-found table',
         tech='Lean 4 proof over an abstract generator-state machine + digest-pattern correspondence', ref='5 C15'),
+    'C05': dict(
+        text='Lean 4 theorems for any candidate list over any bounded linear order of KS values (NaN and failures explicit): '
+             'the selection fold returns a fittable minimiser (first one for strict <), none iff nothing is fittable; the '
+             'candidate enumeration equals the table filter for every class tree and filter pair, with the 12 concrete '
+             'candidate lists decided on the class table regenerated from the source; explicit candidates win; per-column '
+             'configuration and Gaussian fallback totality; tied with stub families rigged to chosen KS values, ties, NaN.',
+        note='kstest and the family fitters are external symbols; tie-breaking is deliberately not demanded of the code; '
+             'a distribution reference that cannot be instantiated propagates (modelled as the error branch)',
+        tech='Lean 4 proof over a hand model + class table regenerated from the AST, correspondence with stub families',
+        ref='5 C05'),
+    'C19': dict(
+        text='Lean 4 theorems over all histories of fit calls: fresh fits are pure; refit purity for the repaired variant and '
+             'counter-examples plus the exact safe-history characterisation for the as-found variants (three independent '
+             'flags: constant overrides, remembered truncation bounds, cached KDE sample size); unfitted queries raise; '
+             'invalid training data rejected with state unchanged; fitted flag set last; get_instance returns a fresh '
+             'unfitted object configured from the stored constructor arguments (table regenerated from the AST); tied by '
+             'random fit histories on every class and a two-sentinel np.empty differential for uninitialised reads.',
+        note='external fitters are abstract functions of (class, options, data); uninitialised-memory clauses are established '
+             'dynamically (sentinel differential), not by a Lean data-flow theorem here (see C17); several recorded findings',
+        tech='Lean 4 proof over a hand-written life-cycle model with as-found/repaired variants + history correspondence',
+        ref='5 C19'),
 }
 
 
